@@ -241,6 +241,7 @@ class OpaqueStepDynamics:
                 a.buf.sct = s
                 res[key] = a
         res_extra = dict(res)
+        self.returned = dict(res)
         return res_extra
 
 
@@ -288,7 +289,7 @@ def step_task(cls_name, prior):
             # a RuntimeError must come with a mismatching shape: under the path condition some state differs in shape
             mism = []
             for key in keys:
-                st, nx = states[key], (ns or {}).get(key)
+                st, nx = states[key], getattr(ct, "returned", {}).get(key)  # (what step_dynamics handed back, stored or not yet)
                 if isinstance(nx, Arr):
                     eq_ = A.shape_equal(A.shape_of(nx), A.shape_of(st))
                     mism.append(T.not_(T.lift(eq_)))
